@@ -6,6 +6,7 @@
 -/
 import IbicusModel.Model.Evaluate
 import IbicusModel.Gen.Evaluate
+import IbicusModel.Gen.EvaluateConfig
 import Mathlib.Tactic.Ring
 import Mathlib.Tactic.SplitIfs
 
@@ -200,5 +201,10 @@ theorem calculate_chi (I1 I2 : List Rat → List Int → List Int) (x1 x2 : List
   split_ifs
   · rfl
   · exact bind_ok_id _
+
+/-! ### configuration -/
+
+/-- the default arguments in the source are the documented ones -/
+theorem defaults : Gen.EvaluateConfig.defaults = documentedDefaults := rfl
 
 end Lemmas.GenEvaluate
